@@ -42,6 +42,10 @@ type Shape struct {
 	Tags           int
 	Records        string
 	Depth          int
+	// Odd counts strings that are not ordinary names (empty, unicode, control characters,
+	// random); IDs counts non-zero topic ids.
+	Odd int
+	IDs int
 	parts          []string
 }
 
@@ -154,7 +158,12 @@ func fillValue(t *rapid.T, fv reflect.Value, name string, key int16, flexible bo
 		}
 		return
 	case ft == uuidType:
-		fv.Set(reflect.ValueOf(genUUID(t, env, path)))
+		id := genUUID(t, env, path)
+		if id != ([16]byte{}) {
+			sh.IDs++
+			sh.add("id")
+		}
+		fv.Set(reflect.ValueOf(id))
 		return
 	case ft == bytesType:
 		fv.SetBytes(genBytes(t, name, env, sh, path))
@@ -258,8 +267,10 @@ func genString(t *rapid.T, name string, env *Env, sh *Shape, path string) string
 		s = rapid.SampledFrom(pool).Draw(t, path)
 	case k <= 7:
 		s = rapid.SampledFrom(hostileStrings).Draw(t, path)
+		sh.Odd++
 	default:
 		s = rapid.StringN(0, 12, 40).Draw(t, path)
+		sh.Odd++
 	}
 	for _, r := range s {
 		if r > 127 {
